@@ -41,6 +41,18 @@ Y19 `xs[-e:]` / `xs[:-e]` with a computed e: for e == 0 the first is the whole s
     the second is empty.
 Y20 a call declared `-> Tuple[...]` tested for truth, or returned from a function declared
     `-> bool`: a non-empty tuple is always true.
+Y21 slices of one sequence put together again: `A[:i] + (f(A[i]),) + A[j:]` replaces element
+    i, so j is i + 1 (with j = i the element is there twice); a rotation `A[k:] + A[:m]` has
+    m = k (otherwise elements are lost or doubled).
+Y22 a list kept in `self` whose positions are used as indices elsewhere in the class is not
+    sorted / reversed in place (directly or through a local alias): every stored index then
+    names another element.
+Y23 `<empty> if c else a + b`: the conditional expression binds loosest, so `+ b` belongs to the
+    else arm only (what was meant is `(<empty> if c else a) + b`).
+Y24 the values of a `**kwargs` dictionary made into a tuple / list: their order is the order
+    the caller happened to write the keywords in, not the order of the class's statistics.
+Y25 a parameter with default None is re-bound only under `p is None` (or from itself): what the
+    caller passed is what is used.
 Y10 a copy / pickle hook (`__getstate__`, `__setstate__`, `__reduce__`, `__copy__`, `__deepcopy__`)
     that does anything but carry the whole instance dictionary over.
 """
@@ -456,6 +468,81 @@ def run(ctx, modules: Tuple[str, ...]) -> None:
                         if not positive:
                             what = "the whole sequence" if which == "lower" else "empty"
                             ctx.violation("Y19", n, f"{fi.qualname}: `{norm(n)[:50]}` with `{e_txt}` == 0 is {what} (-0 is 0), not the last / all but the last 0 elements")
+        # ---------------------------------------------------------------- Y21 (slices put together again)
+        def _flat_add(e: ast.AST) -> List[ast.AST]:
+            return _flat_add(e.left) + _flat_add(e.right) if isinstance(e, ast.BinOp) and isinstance(e.op, ast.Add) else [e]
+
+        def _sl(e: ast.AST):
+            if isinstance(e, ast.Subscript) and isinstance(e.slice, ast.Slice) and e.slice.step is None:
+                return norm(e.value), (norm(e.slice.lower) if e.slice.lower is not None else "0"), (norm(e.slice.upper) if e.slice.upper is not None else None)
+            return None
+        for n in walk_local(f):
+            if not (isinstance(n, ast.BinOp) and isinstance(n.op, ast.Add)) or (isinstance(parent(n), ast.BinOp) and isinstance(parent(n).op, ast.Add)):
+                continue
+            parts = _flat_add(n)
+            sls = [_sl(p_) for p_ in parts]
+            # rotation: A[k:] + A[0:m]
+            if len(parts) == 2 and sls[0] and sls[1] and sls[0][0] == sls[1][0] and sls[0][2] is None and sls[1][1] == "0" and sls[1][2] is not None:
+                if sls[0][1] != sls[1][2]:
+                    ctx.violation("Y21", n, f"{fi.qualname}: `{norm(n)[:80]}` puts the tail from `{sls[0][1]}` in front of the head up to `{sls[1][2]}`: a rotation cuts the sequence at "
+                                  "one place, here an element is lost (or doubled) on every turn")
+            # replacement: A[:i] + (… A[i] …,) + A[j:]
+            if len(parts) == 3 and sls[0] and sls[2] and sls[0][0] == sls[2][0] and sls[0][2] is not None and sls[2][2] is None and not sls[1]:
+                base, i_txt = sls[0][0], sls[0][2]
+                carries = any(isinstance(x, ast.Subscript) and norm(x.value) == base and not isinstance(x.slice, ast.Slice) and norm(x.slice) == i_txt for x in ast.walk(parts[1]))
+                if carries and sls[2][1] == i_txt:
+                    ctx.violation("Y21", n, f"{fi.qualname}: `{norm(n)[:90]}` carries element `{i_txt}` over in the middle part and starts the tail at `{i_txt}` again: the element "
+                                  f"is in the result twice (the tail of a replacement starts at `{i_txt} + 1`)")
+        # ---------------------------------------------------------------- Y22 (in-place reorder of an indexed list)
+        if fi.cls is not None:
+            for c in walk_local(f):
+                if not (isinstance(c, ast.Call) and isinstance(c.func, ast.Attribute) and c.func.attr in ("sort", "reverse") and not c.args):
+                    continue
+                recv = D.expanded(f, c.func.value) if isinstance(c.func.value, ast.Name) else c.func.value
+                if not is_self_attr(recv):
+                    continue
+                attr = recv.attr
+                indexed = [x for k_ in P.mro(fi.cls) + P.subclasses(fi.cls, strict=True) for m_ in k_.methods.values() for x in walk_local(m_.node)
+                           if isinstance(x, ast.Subscript) and is_self_attr(x.value, attr) and not isinstance(x.slice, ast.Slice)
+                           and not (isinstance(x.slice, ast.Constant) and x.slice.value in (0, -1))]
+                if indexed:
+                    ctx.violation("Y22", c, f"{fi.qualname} reorders self.{attr} in place (`{norm(c)[:50]}`), and `{norm(indexed[0])[:40]}` reads it by position: the indices kept "
+                                  "in the other tables of the object now name other elements")
+        # ---------------------------------------------------------------- Y23 (conditional expression swallowing an operand)
+        def _empty_display(e: ast.AST) -> bool:
+            return (isinstance(e, (ast.Tuple, ast.List)) and not e.elts) or (isinstance(e, ast.Call) and isinstance(e.func, ast.Name) and e.func.id in ("tuple", "list") and not e.args
+                                                                           and not e.keywords) or (isinstance(e, ast.Constant) and e.value == "")
+        for n in walk_local(f):
+            if isinstance(n, ast.IfExp) and isinstance(n.orelse, ast.BinOp) and isinstance(n.orelse.op, ast.Add) and _empty_display(n.body):
+                ctx.violation("Y23", n, f"{fi.qualname}: in `{norm(n)[:80]}` the `+ {norm(n.orelse.right)[:30]}` belongs to the else arm only (a conditional expression binds loosest): "
+                              f"when `{norm(n.test)[:30]}` holds the result is empty and the added part is lost")
+        # ---------------------------------------------------------------- Y24 (keyword order used as a position)
+        kwname = f.args.kwarg.arg if f.args.kwarg is not None else None
+        if kwname:
+            for n in walk_local(f):
+                if isinstance(n, ast.Call) and isinstance(n.func, ast.Name) and n.func.id in ("tuple", "list") and len(n.args) == 1:
+                    a0 = n.args[0]
+                    if isinstance(a0, ast.Call) and isinstance(a0.func, ast.Attribute) and a0.func.attr == "values" and isinstance(a0.func.value, ast.Name) and a0.func.value.id == kwname:
+                        ctx.violation("Y24", n, f"{fi.qualname} makes a positional key out of `{norm(a0)}`: the values come in the order the caller wrote the keyword arguments, "
+                                      "the tables are keyed in the order of the class's own statistics -- with two statistics given the other way round another entry is read")
+        # ---------------------------------------------------------------- Y25 (an argument that was given is used)
+        a25 = f.args
+        pos25 = a25.posonlyargs + a25.args
+        dflt25 = dict(zip([x.arg for x in pos25[len(pos25) - len(a25.defaults):]], a25.defaults))
+        for k25, d25 in zip(a25.kwonlyargs, a25.kw_defaults):
+            if d25 is not None:
+                dflt25[k25.arg] = d25
+        opt25 = {p_ for p_, d_ in dflt25.items() if isinstance(d_, ast.Constant) and d_.value is None}
+        for st in walk_local(f):
+            if not isinstance(st, ast.Assign):
+                continue
+            for t in st.targets:
+                if isinstance(t, ast.Name) and t.id in opt25 and not any(isinstance(x, ast.Name) and x.id == t.id for x in ast.walk(st.value)):
+                    gs25 = {(norm(e), p_) for e, p_ in C.flatten_guards(C.guards(f, st))}
+                    if (f"{t.id} is None", True) in gs25 or (f"{t.id} is not None", False) in gs25 or (f"not {t.id}", True) in gs25 or (t.id, False) in gs25:
+                        continue
+                    ctx.violation("Y25", st, f"{fi.qualname} re-binds its parameter `{t.id}` (`{norm(st)[:60]}`) whether or not the caller passed one: the `{t.id}` that was given "
+                                  "is ignored, and what is computed in its place need not be the same")
         # ---------------------------------------------------------------- Y12 (isinstance order)
         def _isinst(t: ast.AST) -> Optional[Tuple[str, List[str]]]:
             if isinstance(t, ast.Call) and isinstance(t.func, ast.Name) and t.func.id == "isinstance" and len(t.args) == 2:
